@@ -15,10 +15,15 @@ TEXT = {
         "level": "Theorems (Props/C14.lean), token level: parse_render_partial (every well-formed expression tree — any nesting, `!`, method calls with expression arguments, "
                  "parentheses, sets — rendered with the minimum of parentheses parses back to itself and the parser stops at its end), postfix_of_parse, the precedence table "
                  "instance by instance (mul_over_add, sub_left_assoc, and_over_or, cmp_over_and, not_over_mul, method_binds_tightest), comparison_nonassoc, the named conversion "
-                 "errors (unbound parameter, odd hex, variable in set, malformed dates) incl. expr_error_propagates, or_is_alternatives, sample_parses. Tied by texts rendered from "
+                 "errors (unbound parameter, odd hex, variable in set, malformed dates) incl. expr_error_propagates, or_is_alternatives, sample_parses. Props/C14Items.lean, whole "
+                 "statements: parseItems_render (every list of well-formed facts, rules, checks with `or` alternatives and policies, rendered with `;` terminators, parses back to "
+                 "itself with the model's own fuel), parseItem_render, policy_rejected (no policy inside a block), empty_body_rejected, missing_terminator_rejected. Props/C14Lexer.lean, "
+                 "character level: lex_spell (every list of well-formed tokens, each written followed by one space, lexes back to itself under the first-match rule order), "
+                 "tokWF_exact (the well-formedness predicate is exactly the set of tokens that re-lex), parseBlockText_spell / parseAuthorizerText_spell (text entry points = lexer then "
+                 "token parser). Tied by texts rendered from "
                  "random abstract syntax with random layout compared with the generator's AST and the Lean grammar model, error and deviation streams, token corruptions, raw "
                  "strings, and first use of every parsed element.",
-        "note": COMMON_NOTE + "Partial at character level; participle modelled, not verified. Three deviations from GRAMMAR.md are recorded as known findings.",
+        "note": COMMON_NOTE + "Character level is proved for one-space layout (lex_spell); tighter layouts are covered by the correspondence (random layout). participle modelled, not verified. Three deviations from GRAMMAR.md are recorded as known findings.",
         "technique": "Lean 4 proof (continuation-style induction over an 8-level recursive-descent parser) + differential correspondence + grammar-based generation",
     },
     "C15": {
@@ -106,7 +111,10 @@ TEXT = {
                  "authorize_perm (same verdict incl. failed ids under permuted facts/rules/queries at every scope), authorize_perm_checks, addFact_idempotent/present, "
                  "authorize_twice, policy_order_matters (order of policies rightly matters). Props/C12Rename.lean: applyRule_rename, run_rename(Each), authorize_rename, query_rename "
                  "(exact equality of state and verdict under any renaming injective on each rule's own variables; no fragment hypothesis) and merge_changes_verdict (non-injective "
-                 "renaming can change the verdict). Tied by presentation variants of AUTHSEQ scenarios incl. variable renamings.",
+                 "renaming can change the verdict). Props/C12Sets.lean + C12Canon.lean (finding D19): construction keeps each set element once (dedup_nodup, mem_dedup); on such sets "
+                 "Set.Equal is extensional and length / intersection / contains respect it (setEqual_iff, length_congr, intersect_congr), raw_sets_disagree (witness on raw lists); "
+                 "canon_eq_iff_same_members (two writings of one set have the same canonical representative, which is what lets the engine model compare values structurally). "
+                 "Tied by presentation variants of AUTHSEQ scenarios incl. variable renamings and a directed stream of one set written in two ways.",
         "note": COMMON_NOTE + "Permutation theorems hold inside the error-free fragment, as the property states; renaming theorems hold everywhere.",
         "technique": "Lean 4 proof (membership-based characterisation + Nodup/Perm counting) + differential correspondence + relational witness search",
     },
